@@ -18,7 +18,7 @@ RECURSIVE Collapse(_, _)
 Collapse(acc, rest) ==
   IF rest = << >> THEN acc
   ELSE LET c == Head(rest) IN
-       IF c = "." THEN Collapse(acc, Tail(rest))
+       IF c = "." \/ c = "" THEN Collapse(acc, Tail(rest))        \* "." and the empty component of "a//b", "a/"
        ELSE IF c = ".." THEN Collapse(IF acc = << >> THEN acc ELSE SubSeq(acc, 1, Len(acc) - 1), Tail(rest))
        ELSE Collapse(Append(acc, c), Tail(rest))
 
